@@ -626,7 +626,7 @@ func (x *Exec) indexVal(env *SpecEnv, xv Val, ie Expr) (Val, error) {
 		}
 		key, hs := vc.elemKey(et)
 		off := app(vc.ar.IdxSort(), "s-off", xv.T)
-		abs, _ := vc.ar.Bin("+", off, idx, kInt)
+		abs := vc.elemIndex(off, idx)
 		return Val{T: Select(Select(vc.heapGet(env.st, key, hs), app(SInt, "s-ref", xv.T)), abs), Typ: et}, nil
 	case xv.T.Sort == "Str":
 		return Val{T: app(vc.ar.Sort(IntKind{8, false}), "gs.at", xv.T, idx), Typ: types.Typ[types.Uint8]}, nil
@@ -994,6 +994,19 @@ func (x *Exec) evalCall(c *ECall, env *SpecEnv) (Val, error) {
 			}
 		}
 		return Val{}, fmt.Errorf("len of sort %s", v.T.Sort)
+	case "toiface":
+		// toiface(p): the interface value holding the (typed) value p
+		if err := argN(1); err != nil {
+			return Val{}, err
+		}
+		v, err := x.evalSpec(c.Args[0], env)
+		if err != nil {
+			return Val{}, err
+		}
+		if v.Typ == nil || v.Loc != nil {
+			return Val{}, fmt.Errorf("toiface() needs a typed value")
+		}
+		return Val{T: vc.makeIface(v.T, v.Typ)}, nil
 	case "sliceof":
 		// sliceof(T, s): view the (untyped) slice value s as a []T
 		if err := argN(2); err != nil {
